@@ -8,6 +8,13 @@
 #include <sys/wait.h>
 
 Ctx g_ctx;
+static double now_s()
+{
+  struct timespec t;
+  clock_gettime(CLOCK_MONOTONIC, &t);
+  return t.tv_sec + t.tv_nsec / 1e9;
+}
+bool Ctx::over_budget() const { return budget_s > 0 && now_s() - t_start > budget_s; }
 // shared with the supervising parent: the case being executed (so that a crash of the whole shard,
 // e.g. a sanitizer abort in a property that does not fork per case, still yields a replay file)
 Shared *g_sh = nullptr;
@@ -121,6 +128,13 @@ std::string write_replay(const Ctx &ctx, const Case &c, const Verdict &v, const 
 
 Verdict eval_fixed(const Prop &p, Ctx &ctx, const Case &c)
 {
+  if (ctx.over_budget() || ctx.stats.violations)
+  {
+    // budget used up (or a violation already reported): the remaining enumeration is skipped, and says so
+    if (!ctx.stats.violations)
+      ctx.stats.info["budget_exhausted"] = "fixed enumeration cut short by the wall-clock budget";
+    return Verdict();
+  }
   set_current(c);
   Verdict v = p.run(c);
   ctx.stats.note(c, v);
